@@ -226,7 +226,9 @@ class FileProvider(ContentProvider):
             if self._filterable and not self._filters:
                 raise NoFilterException("Skipping %s due to no filters." % dr.get_name(self.ds))
             # 2.2 Customer Prohibits Collection
-            if not blacklist.allow_file("/" + self.relative_path):
+            # the deny list names files: "/a//b", "/a/./b" and "/a/x/../b" all spell "/a/b"
+            spelled = "/" + self.relative_path
+            if not (blacklist.allow_file(spelled) and blacklist.allow_file(os.path.normpath(spelled))):
                 log.warning("WARNING: Skipping file %s", "/" + self.relative_path)
                 raise BlacklistedSpec()
 
